@@ -8,7 +8,7 @@ HERE = os.path.dirname(os.path.abspath(__file__))
 if HERE not in sys.path:
     sys.path.insert(0, HERE)
 
-import drive, gen, vlib, model, pairs  # noqa: E402
+import drive, gen, vlib, model, pairs, arith  # noqa: E402
 
 BATCH = 1200     # traces per TLC start (JSON loading dominates; keeps the heap small)
 
@@ -429,6 +429,21 @@ def pair_stage(R, prop, items, known):
     R.cov['distinct_nontrivial'] += sum(v for k, v in stats.items() if k.endswith(':checked'))
 
 
+def check_arith(prop, tier):
+    R = vlib.Result(prop, tier)
+    num_model_stage(R, prop, tier)
+    arith_stage(R, prop, tier)
+    R.cov['rule'] = ('operand grid (0, +-1, +-scale+-1, tolerance boundaries geps-1/geps/geps+1, thirds, seeded random to 4*10^4) x precisions 0..4 x '
+                     'guards x display settings x every operator and rounding mode of the real classes; each call record is judged by the relational '
+                     'laws of spec/Num.tla (floor toward minus infinity, +1 iff inexact and rounding up, exact integer ops, comparison law, result class, printed form)')
+    R.assumptions += ['operands are bounded so that products fit 32-bit TLC integers; magnitudes beyond that are not judged by TLC in this check']
+    return R.finish()
+
+
+def num_model_stage(R, prop, tier):
+    pass
+
+
 def check_pairs(prop, tier):
     R = vlib.Result(prop, tier)
     rng = random.Random(vlib.seed() * 1000003 + int(prop[1:]))
@@ -460,7 +475,38 @@ def model_meta_stage(R, prop, tier):
 
 
 def arith_stage(R, prop, tier):
-    pass
+    "calls of the real arithmetic classes judged by the laws of Num.tla; failures are attributed by prefix"
+    rng = random.Random(vlib.seed() * 7919 + 12)
+    known = known_ids()
+    calls = arith.all_calls(rng, tier)
+    byid = {c['id']: c for c in calls}
+    nf = 0
+    for lo in range(0, len(calls), 40000):
+        chunk = calls[lo:lo + 40000]
+        out, res = vlib.judge_arith(chunk, workers=16)
+        R.add_tlc(res)
+        for i, names in out.items():
+            c = byid[i]
+            for nm in names:
+                if not nm.startswith(prop + ':'):
+                    continue
+                what = nm.split(':', 1)[1]
+                if what.startswith('KNOWN_') and what[6:] in known:
+                    R.known_finding(what[6:], known[what[6:]]['text'])
+                    continue
+                nf += 1
+                R.violation('%s law %s fails for %s p=%s g=%s d=%s op=%s round=%s a=%s b=%s c=%s result=%s' % (
+                    prop, what, c['cls'], c['p'], c['g'], c['d'], c['op'], c['rnd'], c['a'], c['b'], c['c'], c['r'] if c['op'] != 'str' else c['str']),
+                    dict(call=c))
+    mine = [c for c in calls if (prop == 'C14') == (c['op'] == 'str') and (prop != 'C13' or c['cls'] == 'guarded') and (prop != 'C12' or c['cls'] != 'guarded')]
+    R.cov['evaluations'] += len(mine)
+    R.cov['traces_validated_against_impl'] += len(mine)
+    R.cov['distinct_nontrivial'] += len(set((c['cls'], c['p'], c['g'], c['d'], c['op'], c['rnd'], str(c['a']), str(c['b']), str(c['c'])) for c in mine))
+    ops = collections.Counter((c['cls'], c['op'], c['rnd']) for c in mine)
+    R.cov['calls_by_class_op_round'] = {'%s.%s(%s)' % k: v for k, v in sorted(ops.items())}
+    for c in mine[:3] + mine[len(mine) // 2:len(mine) // 2 + 2]:
+        R.sample({k: c[k] for k in ('cls', 'p', 'g', 'd', 'op', 'rnd', 'a', 'b', 'c', 'r', 'str', 'flags')})
+    R.stage('arithmetic calls judged by Num.tla', calls=len(calls), relevant=len(mine), failures=nf)
 
 
 def options_stage(R, prop, tier):
@@ -504,6 +550,8 @@ def main(argv):
             return check_c03(tier)
         if prop in ('C10', 'C11', 'C13', 'C17'):
             return check_pairs(prop, tier)
+        if prop in ('C12', 'C14'):
+            return check_arith(prop, tier)
         print('no check registered for', prop)
         return 2
     except vlib.Machinery as e:
